@@ -109,3 +109,21 @@ prop("C16", "c16",
      "cases = random trees (depth <=5, fan-out <=6) assembled at run time from the real Par/Seq nodes through a boxing adapter, leaves = self-logging systems over 26 writable + 6 read-only slots, a third of the trees poisoned with one conflicting par-sibling access; conflict-free trees are set up and dispatched 2-3 times on pools 1..16 from outside and from inside the pool (also through RunNow). "
      "Oracles: Par::with panics (debug assertions are on in this build) <=> the new child conflicts with the children already there; root reads()/writes() == multiset of the leaves'; setup reaches every leaf once; every leaf exactly once per dispatch; within a seq node all leaves of child i end before any leaf of child i+1 enters; conflicting leaves never overlap; every 100th case: k leaves under one par node rendezvous inside run (with a plain-rayon control). "
      "distinct non-trivial = tree-shape hash with depth >=2 and both node kinds (or a completed par rendezvous).")
+
+prop("C08", "c08",
+     "cases = (a) single-thread histories of 60 operations over 3..18 hot resources (some absent): try_fetch(_mut)_by_id on any dynamic id, fetch / fetch_mut / try_fetch / try_fetch_mut, system_data of 14 library SystemData types (first failing member decides; earlier members unwind), Fetch::clone, MetaTable iter (several items kept alive) and iter_mut, drop of a random live guard, scoped unwinding through freshly taken guards, writes through live exclusive guards; after every step the outcome (guard / None / panic kind) must equal the borrow-state reference model, every live guard must still read its model value and the borrow state of all 32 cells (probed via try_fetch_internal) must equal the model. "
+     "(b) every 100th case: 2..16 threads hammer 2..4 resources under catch_unwind; a per-slot shadow counter is changed strictly inside each guard's lifetime (exclusive: CAS 0->-1, shared: add must see >=0), writers write a, spin, b, readers check a==b. "
+     "distinct non-trivial = history hash (or stress run) with >=1 refused and >=1 granted borrow of each kind.",
+     crash_is_violation=True)
+
+prop("C09", "c09",
+     "cases = histories of 80 operations over 8 value types (ZST, u8, [u64;32], String, Vec<u8>, align-16, two drop-tracked types of different size) x 3 dynamic ids: insert, insert_by_id, remove, remove_by_id, entry().or_insert(_with), has_value(_raw), get_mut (+overwrite), get_mut_raw, fetch/fetch_mut, try_fetch(_mut), try_fetch(_mut)_by_id (+overwrite), setup of default-providing and of optional/expecting accessors, exec; 15% of the id-taking calls carry a different type argument (different size). "
+     "Oracles: every result against a reference map; after every step has_value_raw == model for all 24 keys and the concrete type_id of every stored box == the key's type; mismatching calls must panic with the wrong-type-id message and change nothing; at the end every tracked value was dropped exactly once. "
+     "distinct non-trivial = history hash with >=1 replace, >=1 successful remove and >=1 mismatching-type call.",
+     crash_is_violation=True)
+
+prop("C17", "c17",
+     "cases = histories of 70 operations over a MetaTable<dyn Trait> and a world with 12 implementor types (ZST, 1 byte ... 4 KiB, align 16/64, heap-owning): register (with repeats), insert / remove, insert under another dynamic id, get / get_mut on present resources, iter / iter_mut collecting all items, iteration under a live typed exclusive guard, typed writes; every 50th case a CastFrom that returns a different address. "
+     "Oracles: reference registration list (first-registration order) and presence map; get(_mut) is Some <=> registered; every yielded object's self-reported address == the resource's address and its type tag == the concrete type's; iter sequences == [registration order ∩ present under dyn id 0] with model values; shared/exclusive interplay with typed fetches; the bad cast must panic with the library's message. "
+     "distinct non-trivial = history hash with a repeated registration and a registered-but-absent type.",
+     crash_is_violation=True)
